@@ -118,8 +118,8 @@ bool gp_file_read_strip(
     while (true) // write until codepoint found in char set
     {
         int c = fgetc(in);
-        if (c == EOF)
-            return false;
+        if (c == EOF) // the last run of the file has no character of the set after it
+            return true;
         char codepoint[8] = {c};
         size_t codepoint_length = gp_utf8_codepoint_length(codepoint, 0);
         for (size_t i = 1; i < codepoint_length; i++) {
